@@ -8,6 +8,7 @@ from common import Outcome, LeanDriver
 ID = "C12"
 PROPS = ["Invoke/Props/C12.lean"]
 TARGETS = ["drv_watcher"]
+DRIVER_ROOTS = ["Driver/Watcher.lean"]
 GENERATED = []
 RULE = ("cases = (fixed-width pattern, text, chunking[, sentinel, second watcher]); quick: all texts of length <=5 over "
         "{a,b,\\n} x 10 patterns x all 2^(n-1) chunkings through the real Responder, plus random longer texts through "
